@@ -25,6 +25,7 @@ EXPLANATION = (
     "objects (no __lt__) are never ordered without a key. R10.9 an attribute read on a value that may be one of several repository classes is defined on each alternative or guarded by an isinstance test; R10.8 graph views (degree / nodes / edges ...) are subscripted only with keys known to be in that graph; R10.7 the evaluated flag is set last and on success only, so an accessor called after a failed one raises the library exception again instead of AttributeError. Does not decide: exceptions raised inside sqlfluff/sqlparse/networkx for "
     "well-formed calls, recursion depth."
     " R10.3 also covers %-formatting (conversions in the literal = arguments; a format string that is data). R10.11 an attribute a method establishes is assigned on every path before it is read, and the evaluation routine re-assigns everything it assigns on every path to its normal exit. R10.12 shared clauses: the session's exit does not swallow exceptions (= R12.1), nothing written while one statement is analysed is carried to the next (= R05.3)."
+    ' R10.14 no assert on analysis data; R10.15 no networkx algorithm that is defined for acyclic graphs only (list read from the installed networkx sources) outside try/except; R10.16 UnsupportedStatementException is raised only where silent mode is decided. Allow entries resting on grammar facts are re-checked against the positional / nullability relation of every installed dialect grammar.'
 )
 RULE_TEXT = (
     "R10.1: per raise statement; R10.3: per positional / unpacking / next / optional-dereference site on parser-derived data (semantic key "
